@@ -598,6 +598,14 @@ func genC03(o *cw) {
 					}
 					o.c("evalall", ds[0], "/", "-", "count("+e+")", "", "positional-in-predicate")
 				}
+				// (P)[n] inside a predicate: the n-th node of P, counted afresh for every outer candidate
+				for _, outer := range []string{"//*", "/*/*", "//p"} {
+					e := outer + "[(" + t1 + "/" + t2 + ")[" + pp + "]]"
+					for _, d := range ds[:5] {
+						o.c("selall", d, "/", "-", e, "", "group-positional-in-predicate")
+					}
+					o.c("evalall", ds[1], "/", "-", "count("+e+")", "", "group-positional-in-predicate")
+				}
 			}
 		}
 	}
@@ -738,8 +746,37 @@ func genC11(o *cw) {
 		}
 		return p
 	}
+	// operands with an axis test in a predicate (read for its first node only, once per candidate):
+	// a candidate with several matches directly before a candidate with none
+	var nested []*dref
+	for _, src := range []string{`r(a(a(b)),c(b),d(b))`, `r(c(b),d(b),a(a(b)))`, `r(b(a,a),b,b(a),a(b(b),b),b)`, `r(a(@x=1,@a=2,b(@x=1)),a,b(@a=1),a(b,b),a)`} {
+		nested = append(nested, o.doc(doc.Parse(src), false))
+	}
+	for _, ax := range allAxes {
+		for _, t := range []string{"a", "b", "*"} {
+			if ax == "attribute" {
+				t = map[string]string{"a": "x", "b": "a", "*": "*"}[t]
+			}
+			for _, T := range []string{"a", "b", "*"} {
+				pr := T + "[" + ax + "::" + t + "]"
+				for _, s := range []string{"//" + pr + " | //text()", "//" + pr + " | //" + pr, "//*/(" + pr + ", self::b)", "//a | //" + T + "[" + ax + "::" + t + " = '']"} {
+					for k := 0; k < 2; k++ {
+						o.c("selall", ds[(k*7+len(s)+len(ax))%len(ds)], "/", "-", s, "", "union-pred-axis")
+					}
+					for _, d := range nested {
+						o.c("sel", d, "/", "-", s, "", "union-pred-axis")
+					}
+				}
+			}
+		}
+	}
 	for i := 0; i < 600*o.tier; i++ {
 		a, b := mk(), mk()
+		if g.r.Chance(30) {
+			// an operand whose last step carries an axis-existence predicate
+			st := &a.Steps[len(a.Steps)-1]
+			st.Preds = append(st.Preds, gen.Path{Steps: []gen.Step{{Axis: g.r.Pick(allAxes[:11]), Test: g.r.Pick([]string{"a", "*", "b"})}}})
+		}
 		var e gen.Ex = gen.Bin{Op: "|", L: a, R: b}
 		switch g.r.Intn(6) {
 		case 0:
@@ -853,5 +890,19 @@ func genC13(o *cw) {
 		gid = grp()
 		o.c("evalall", d, "/", "-", "boolean("+s+")", gid, "truth")
 		o.c("evalall", d, "/", "-", "not(not("+s+"))", gid, "notnot")
+	}
+	// (P) inside a predicate keeps the truth value of P for EVERY candidate of the outer step
+	inner := []string{"a", "b", "*", "a/b", "*/*", "a | b", "b | a/b", ".//a", "..", "@*", "a/@*", "text()", "*[1]", "a[b]"}
+	for _, outer := range []string{"//*", "/*/*", "//a", "*", ".//b"} {
+		for _, in := range inner {
+			for di, d := range append(append([]*dref{}, cds...), ds[:3]...) {
+				gid := grp()
+				o.c("selall", d, "/", "-", outer+"["+in+"]", gid, "group-in-predicate")
+				o.c("selall", d, "/", "-", outer+"[("+in+")]", gid, "group-in-predicate()")
+				if di%2 == 0 {
+					o.c("selall", d, "/", "-", outer+"[(("+in+"))]", gid, "group-in-predicate(())")
+				}
+			}
+		}
 	}
 }
